@@ -13,7 +13,8 @@
   OWN        tracks store copies (droplets unchanged, input unmodified);
   NONETEST   an explicit time 0 is not mistaken for "no time";  PAIR times/droplets;
   EFFECT     nothing is written through the time course;
-  EMPTY      frames without droplets do not reach cdist.
+  EMPTY      frames without droplets do not reach cdist;
+  METRIC/STRICT  the overlap predicate and the distance matrix use the selected (periodic) metric and nothing else.
 """
 
 from __future__ import annotations
@@ -35,6 +36,13 @@ def check(ctx: Ctx):
     tracking.check_track_append(ctx)
     tracking.check_input_untouched(ctx)
     empty.check_cdist(ctx)
+    # "at most one droplet per frame in a track" needs the overlap predicate to be the documented one: two droplets of
+    # one frame that do not overlap must not both overlap-match through a wrong metric (e.g. a hand-written wrap of non-periodic axes)
+    from . import c07
+    c07.check_overlaps(ctx)
+    c07.check_matcher_metric(ctx)
+    ctx.expect("METRIC", 4)
+    ctx.expect("STRICT", 1)
     ctx.expect("PATHCOUNT", 3)
     ctx.expect("INDEX", 4)
     ctx.expect("CONT", 1)
